@@ -38,7 +38,7 @@ def check_gate(program, rep):
     kw = a.kwarg.arg if a.kwarg else None
     exits, w = evrules.walk_method(program, f)
     rep.count('paths', len(exits))
-    bad_gate = bad_queue = bad_unknown = None
+    bad_gate = bad_queue = bad_unknown = bad_lock = None
     n_del = n_q = 0
     for ex in exits:
         tr = ex.state.trace
@@ -46,10 +46,14 @@ def check_gate(program, rep):
         flag_at = {}
         delivered = []
         queued = []
+        locks = evrules.HeldLocks(program)
         for i, e in enumerate(tr):
+            locks.feed(e)
             if e.kind == 'cond':
                 conds[e.sym.text] = e.extra
             if e.kind == 'call':
+                if evrules.is_delivery(e) == 'method' and locks.held():
+                    bad_lock = (e, locks.held()[0])
                 if evrules.is_delivery(e) == 'method':
                     delivered.append((e, conds.get(FLAG)))
                 cn = e.sym.node
@@ -104,6 +108,12 @@ def check_gate(program, rep):
               'order is broken, or the event is dropped)',
               line=getattr(getattr(bad_queue, 'node', None), 'lineno',
                            f.node.lineno))
+    if bad_lock is not None:
+        rep.bad('C04.gate', site, bad_lock[0].node,
+                f'dispatch() delivers while holding {bad_lock[1]}, a lock that '
+                'is not reentrant: a callback that dispatches (or toggles '
+                'dispatch_enabled) on the same dispatcher blocks forever',
+                line=getattr(bad_lock[0].node, 'lineno', f.node.lineno))
     rep.check(bad_unknown is None, 'C04.gate', site,
               bad_unknown.node if bad_unknown else f'{ev} not in {EVENTS}',
               'events nobody listens to are neither queued nor delivered',
@@ -161,7 +171,16 @@ def check_release(program, rep):
         deliveries = 0
         loop_tests = 0
         val_truth = None
+        locks = evrules.HeldLocks(program)
         for i, e in enumerate(tr):
+            locks.feed(e)
+            if e.kind == 'call' and evrules.is_delivery(e) and locks.held():
+                flag('termination', e.node,
+                     f'callbacks are delivered while {locks.held()[0]} - a '
+                     'lock that is not reentrant - is held by the enabling '
+                     'assignment: a callback that assigns dispatch_enabled '
+                     'again (the nested disable) blocks on it forever, '
+                     'enabling never terminates')
             if e.kind == 'store' and e.target is not None \
                     and e.target.text == FLAG:
                 stored_val = (e.sym.text == val)
@@ -271,6 +290,28 @@ def check_release(program, rep):
                    line=f.node.lineno)
     # other writers of the queue in the package
     disp = evrules.dispatcher_class(program)
+    for c in [disp] + program.subclasses(disp):
+        for g in c.methods.values():
+            for n in ast.walk(g.node):
+                if not (isinstance(n, (ast.Assign, ast.AnnAssign))
+                        and isinstance(n.value, ast.Call)):
+                    continue
+                ts = n.targets if isinstance(n, ast.Assign) else [n.target]
+                if not any(norm(t) == QUEUE for t in ts):
+                    continue
+                v = n.value
+                if (dotted(v.func) or '').split('.')[-1] != 'deque':
+                    continue
+                ml = [k.value for k in v.keywords if k.arg == 'maxlen'] + \
+                    list(v.args[1:2])
+                if ml and not (isinstance(ml[0], ast.Constant)
+                               and ml[0].value is None):
+                    rep.bad('C04.release', g.where, v,
+                            'the queue of postponed events is a bounded deque '
+                            f'(maxlen={norm(ml[0])}): once it is full every '
+                            'append silently discards the oldest pending '
+                            'event, which is then never delivered',
+                            line=v.lineno)
     inlined = {e.func for ex in exits for e in ex.state.trace
                if e.kind == 'enter' and e.func is not None}
     for g in program.all_functions():
